@@ -192,6 +192,7 @@ class Exec:
         self.unordered_sites = []
         self.use_virtual = True
         self.capture = None
+        self.fresh_uuids = []
         self.sort_sites = []
 
     # ============================================================== solver helpers
